@@ -2,8 +2,9 @@ package raycrossing
 
 import (
 	"github.com/twpayne/go-geom"
-	"github.com/twpayne/go-geom/xy/internal/robustdeterminate"
+	"github.com/twpayne/go-geom/bigxy"
 	"github.com/twpayne/go-geom/xy/location"
+	"github.com/twpayne/go-geom/xy/orientation"
 )
 
 // LocatePointInRing determine where the point is with regards to the ring
@@ -104,33 +105,23 @@ func (counter *rayCrossingCounter) countSegment(p1, p2 geom.Coord) {
 	 * </ul>
 	 */
 	if ((p1[1] > counter.p[1]) && (p2[1] <= counter.p[1])) || ((p2[1] > counter.p[1]) && (p1[1] <= counter.p[1])) {
-		// translate the segment so that the test point lies on the origin
-		x1 := p1[0] - counter.p[0]
-		y1 := p1[1] - counter.p[1]
-		x2 := p2[0] - counter.p[0]
-		y2 := p2[1] - counter.p[1]
-
-		/**
-		 * The translated segment straddles the x-axis. Compute the sign of the
-		 * ordinate of intersection with the x-axis. (y2 != y1, so denominator
-		 * will never be 0.0)
-		 */
-		// double xIntSign = RobustDeterminant.signOfDet2x2(x1, y1, x2, y2) / (y2
-		// - y1);
-		// MD - faster & more robust computation?
-		xIntSign := robustdeterminate.SignOfDet2x2(x1, y1, x2, y2)
-		if xIntSign == 0.0 {
+		// The sign of the ordinate at which the segment crosses the ray is the
+		// orientation of the test point relative to the segment. It has to be
+		// evaluated on the original coordinates: translating the segment to
+		// the test point in floating point rounds, and the sign of an exact
+		// determinant of rounded differences is wrong for points within a few
+		// ulps of the segment.
+		orient := bigxy.OrientationIndex(p1, p2, counter.p)
+		if orient == orientation.Collinear {
 			counter.isPointOnSegment = true
 			return
 		}
-		if y2 < y1 {
-			xIntSign = -xIntSign
+		// Re-orient the result so that the effective segment direction is upwards.
+		if p2[1] < p1[1] {
+			orient = -orient
 		}
-		// xsave = xInt;
-
-		// System.out.println("xIntSign(" + x1 + ", " + y1 + ", " + x2 + ", " + y2 + " = " + xIntSign);
-		// The segment crosses the ray if the sign is strictly positive.
-		if xIntSign > 0.0 {
+		// The upward segment crosses the ray if the test point lies to its left.
+		if orient == orientation.CounterClockwise {
 			counter.crossingCount++
 		}
 	}
